@@ -800,7 +800,8 @@ func (p *Parser) parseImplementsInterfaces() (list ast.TypeList) {
 				}
 				list.Refs = append(list.Refs, ref)
 			} else {
-				p.errUnexpectedToken(p.read())
+				// a name that does not follow '&' is not part of the list: it starts the
+				// next definition (e.g. `type A implements B type C`)
 				return
 			}
 		default:
